@@ -89,7 +89,8 @@ void CircuitFlowReverser::do_m2r_instruction(const CircuitInstruction &inst) {
         if (!dont_turn_measurements_into_resets && rev.xs[q].empty() && rev.zs[q].empty() &&
             rev.rec_bits.contains(rev.num_measurements_in_past - 1) && inst.args.empty()) {
             // Noiseless measurements with past-dependence and no future-dependence become resets.
-            inverted_circuit.safe_append(CircuitInstruction(reset, inst.args, &t, inst.tag));
+            GateTarget rt = GateTarget::qubit(q);
+            inverted_circuit.safe_append(CircuitInstruction(reset, inst.args, &rt, inst.tag));
         } else {
             // Measurements that aren't turned into resets need to be re-indexed.
             auto f = rev.rec_bits.find(rev.num_measurements_in_past - 1);
